@@ -17,3 +17,92 @@ Theorem C06_slice_in_bounds : forall a b len s e,
   0 <= len -> slice_spec a b len = Some (s, e) -> 0 <= s <= len /\ 0 <= e <= len.
 Proof. exact slice_spec_in_bounds. Qed.
 Print Assumptions C06_slice_in_bounds.
+
+(* ---------------------------------------------------------------------------------------------- *)
+From Coq Require Import List NArith Arith.
+From PT Require Import Model.Base Model.Stack Model.Texpr Model.Sem Model.Aparse Proofs.StackOps.
+Import ListNotations.
+Local Close Scope Z_scope.
+
+(* graceful failure on the real parse path: PEEK / POP / DROP on an empty stack and an out-of-range
+   slice make the expression fail with the corresponding special event; they never panic *)
+Theorem C06_peek_empty : forall E n inh pos st,
+  cache (stk st) = [] -> tparse E (S n) inh TPeek pos st = Fail (ev (EEmptyStack pos) st).
+Proof. exact peek_empty. Qed.
+Print Assumptions C06_peek_empty.
+
+Theorem C06_pop_empty : forall E n inh pos st,
+  cache (stk st) = [] -> tparse E (S n) inh TPop pos st = Fail (ev (EEmptyStack pos) st).
+Proof. exact pop_empty. Qed.
+Print Assumptions C06_pop_empty.
+
+Theorem C06_drop_empty : forall E n inh pos st,
+  cache (stk st) = [] -> tparse E (S n) inh TDrop pos st = Fail (ev (EEmptyStack pos) st).
+Proof. exact drop_empty. Qed.
+Print Assumptions C06_drop_empty.
+
+Theorem C06_slice_out_of_range : forall E n inh a b pos st,
+  slice_spec a b (Z.of_nat (length (cache (stk st)))) = None ->
+  tparse E (S n) inh (TPeekSlice a b) pos st = Fail (ev (EOutOfBound pos a b) st).
+Proof. exact slice_out_of_range. Qed.
+Print Assumptions C06_slice_out_of_range.
+
+(* an accepted slice selects entries s..e of the stack, bottom to top, without ever indexing outside it *)
+Theorem C06_slice_index_safe : forall st a b s e,
+  slice_spec a b (Z.of_nat (length (cache (stk st)))) = Some (s, e) ->
+  exists sps, stack_slice (stk st) a b = Some (MOk sps) /\
+              sps = if (e <=? s)%Z then []
+                    else firstn (Z.to_nat e - Z.to_nat s) (skipn (Z.to_nat s) (rev (cache (stk st)))).
+Proof. exact slice_index_safe. Qed.
+Print Assumptions C06_slice_index_safe.
+
+(* effects on the reference interpreter (which the real parse path refines: C05_no_trace) *)
+Theorem C06_push_text : forall E n inh e pos stk p t stk',
+  aparse E (S n) inh (TPush e) pos stk = AOk (p, t) stk' ->
+  exists t1 stk1, aparse E n inh e pos stk = AOk (p, t1) stk1 /\ t = NPush t1 /\ stk' = (pos, p) :: stk1.
+Proof. exact a_push_effect. Qed.
+Print Assumptions C06_push_text.
+
+Theorem C06_pop : forall E n inh pos stk p t stk',
+  aparse E (S n) inh TPop pos stk = AOk (p, t) stk' ->
+  exists sp txt, stk = sp :: stk' /\ span_str (e_inp E) sp = MOk txt /\
+                 i_match_string (e_inp E) txt pos = MOk (Some p) /\ t = NSpanned KPop (fst sp) (snd sp).
+Proof. exact a_pop_effect. Qed.
+Print Assumptions C06_pop.
+
+Theorem C06_peek : forall E n inh pos stk p t stk',
+  aparse E (S n) inh TPeek pos stk = AOk (p, t) stk' ->
+  exists sp rest txt, stk = sp :: rest /\ stk' = stk /\ span_str (e_inp E) sp = MOk txt /\
+                      i_match_string (e_inp E) txt pos = MOk (Some p).
+Proof. exact a_peek_effect. Qed.
+Print Assumptions C06_peek.
+
+Theorem C06_drop : forall E n inh pos stk p t stk',
+  aparse E (S n) inh TDrop pos stk = AOk (p, t) stk' -> exists sp, stk = sp :: stk' /\ p = pos.
+Proof. exact a_drop_effect. Qed.
+Print Assumptions C06_drop.
+
+Theorem C06_peek_all : forall E n inh pos stk p t stk',
+  aparse E (S n) inh TPeekAll pos stk = AOk (p, t) stk' ->
+  peek_spans E stk pos = MOk (Some p) /\ stk' = stk.
+Proof. exact a_peek_all_effect. Qed.
+Print Assumptions C06_peek_all.
+
+Theorem C06_pop_all : forall E n inh pos stk p t stk',
+  aparse E (S n) inh TPopAll pos stk = AOk (p, t) stk' ->
+  peek_spans E stk pos = MOk (Some p) /\ stk' = [].
+Proof. exact a_pop_all_effect. Qed.
+Print Assumptions C06_pop_all.
+
+Theorem C06_peek_slice : forall E n inh a b pos stk p t stk',
+  aparse E (S n) inh (TPeekSlice a b) pos stk = AOk (p, t) stk' ->
+  exists s e, slice_spec a b (Z.of_nat (length stk)) = Some (s, e) /\ stk' = stk /\
+    peek_spans E (if (e <=? s)%Z then []
+                  else firstn (Z.to_nat e - Z.to_nat s) (skipn (Z.to_nat s) (rev stk))) pos = MOk (Some p).
+Proof. exact a_slice_effect. Qed.
+Print Assumptions C06_peek_slice.
+
+Theorem C06_slice_invalid : forall E n inh a b pos stk,
+  slice_spec a b (Z.of_nat (length stk)) = None -> aparse E (S n) inh (TPeekSlice a b) pos stk = AFail.
+Proof. exact a_slice_invalid. Qed.
+Print Assumptions C06_slice_invalid.
